@@ -2,10 +2,10 @@
    exists".  Statements only, each closed by lemmas of Lemmas.v.
 
    Vocabulary (Model.v / Lemmas.v):
-     graph                = node list, element label per node, duplicate-free edge list
+     graph                = node list, element label and atom class per node, duplicate-free edge list
      In_u e l             = the unordered pair e occurs in l (in either orientation)
-     Iso g h              = label-preserving graph isomorphism (a bijection of the node sets given with
-                            its inverse, preserving labels and adjacency)
+     Iso g h              = graph isomorphism matching element labels AND atom classes (a bijection of
+                            the node sets given with its inverse, preserving both and adjacency)
      wf g                 = g is a simple graph: no edge twice (unordered), endpoints are nodes
      apply_edit r fb bb   = generate_rearranged_graph: add the forming, remove the breaking bonds
      get_bond_rearrangs   = the model of autode.bond_rearrangement.get_bond_rearrangs; its isomorphism
@@ -113,8 +113,8 @@ Proof. exact load_save. Qed.
 
 (* ------------------------------------------------------------------ non-vacuity *)
 (* C-H + O  ->  C + H-O  (atoms 0:C 1:H 2:O; labels are ranks C=0 H=1 O=2). *)
-Definition ex_r : graph := mkGraph [0; 1; 2] (fun i => i) [(0, 1)].
-Definition ex_p : graph := mkGraph [0; 1; 2] (fun i => i) [(1, 2)].
+Definition ex_r : graph := mkGraph [0; 1; 2] (fun i => i) (fun _ => 0) [(0, 1)].
+Definition ex_p : graph := mkGraph [0; 1; 2] (fun i => i) (fun _ => 0) [(1, 2)].
 Definition ex_mv (lab : nat) : nat := match lab with 0 => 4 | 1 => 1 | _ => 3 end.
 
 (* every premise of rearrs_complete other than Hiso holds for this instance (Hiso itself says the
